@@ -36,6 +36,7 @@ type tgScn struct {
 		Fixed    bool `json:"fixed"`
 		Bs       int  `json:"bs"`
 		Collapse bool `json:"collapse"`
+		Rtl      bool `json:"rtl"`
 		Cap      int  `json:"cap"`
 	} `json:"opts"`
 	Placed []struct {
@@ -85,6 +86,9 @@ func c13HTML(s *tgScn, variant int) string {
 	head := c13Head(s, variant)
 	if s.Opts.Collapse {
 		st += "border-collapse:collapse;"
+	}
+	if s.Opts.Rtl {
+		st += "direction:rtl;"
 	}
 	if s.Opts.Fixed {
 		st += "table-layout:fixed;"
@@ -267,7 +271,10 @@ func c13Main(args []string) int {
 		if s.Opts.Fixed {
 			kind += "+fixed"
 		}
+		if s.Opts.Rtl {
+			kind += "+rtl"
+		}
 		out.Emit(map[string]interface{}{"cols": cols, "rows": rows, "cells": cells, "tx": q64(float64(table.ContentBoxX())), "tw": q64(float64(table.Width.V())), "tbw": q64(float64(table.BorderWidth())),
-			"spec": s.Opts.Tw * 64, "bsh": bs, "bsv": bsv, "collapse": s.Opts.Collapse, "fixed": s.Opts.Fixed, "shared": s.Shared, "kind": kind, "html": tshow})
+			"spec": s.Opts.Tw * 64, "bsh": bs, "bsv": bsv, "collapse": s.Opts.Collapse, "rtl": s.Opts.Rtl, "fixed": s.Opts.Fixed, "shared": s.Shared, "kind": kind, "html": tshow})
 	})
 }
